@@ -136,6 +136,10 @@ def r_vtform(ctx):
             sl[x] = (x[2][1], x[2][2], x[2][3])
     nxt = [k for k, v in sl.items() if v == (('c', 1), NONE, NONE)]
     cur = [k for k, v in sl.items() if v == (NONE, ('c', -1), NONE)]
+    if not sl:
+        run.undecided('R-VTFORM', f, 'pair=(i+1,i)', nd.lineno, 'the ascent predicate %s does not compare slices of the value array'
+                      % show(pred)[:80])
+        return
     if len(sl) != 2 or len(nxt) != 1 or len(cur) != 1:
         run.refute('R-VTFORM', f, 'pair=(i+1,i)', nd.lineno,
                    'the ascent predicate compares %s; required V[1:] (next) against V[:-1] (current)'
